@@ -62,6 +62,9 @@ def instances(tier, seed):
     step = 8 if tier == 'quick' else 4
     for lo in range(0, 65, 16):
         out.append({'id': f'optimize_counts:C=64:n2 in [{lo},{min(lo + 15, 64)}]:step={step}', 'what': 'counts', 'C': 64, 'lo': lo, 'hi': min(lo + 15, 64), 'step': step, 'wseed': seed})
+    # the same with the pruning precision in the search space and some channels already pruned (0 bit): they stay pruned, the others are refined
+    for n0 in ((8,) if tier == 'quick' else (4, 8, 24)):
+        out.append({'id': f'optimize_counts:C=64:w=0-2-4-8:pruned={n0}:step={step}', 'what': 'counts', 'C': 64, 'lo': 0, 'hi': 64 - n0, 'step': step, 'wseed': seed, 'w': [0, 2, 4, 8], 'n0': n0})
     return out
 
 
@@ -251,14 +254,16 @@ def _alphas_for_counts(m, counts, w):
 
 def _run_counts(res, p, selftest):
     C, lo, hi, step, wseed = p['C'], p['lo'], p['hi'], p['step'], p.get('wseed', 0)
-    w = [2, 4, 8]
+    w = p.get('w', [2, 4, 8])
+    n0 = p.get('n0')
+    Cs = C - (n0 or 0)
 
     def fn(ex):
         n2, n4 = z3.Int('n2'), z3.Int('n4')
-        ex.assume(n2 >= lo, n2 <= hi, n2 % step == 0, n4 >= 0, n4 % step == 0, n2 + n4 <= C)
+        ex.assume(n2 >= lo, n2 <= hi, n2 % step == 0, n4 >= 0, n4 % step == 0, n2 + n4 <= Cs)
         a = int(st.concretize_scalar(n2))
         b = int(st.concretize_scalar(n4))
-        return [a, b, C - a - b]
+        return ([n0] if n0 is not None else []) + [a, b, Cs - a - b]
     ex = Explorer(timeout_ms=Q)
     for pc, counts in ex.explore(fn):
         m = _mk_model(w, C, wseed)
@@ -269,11 +274,11 @@ def _run_counts(res, p, selftest):
             prob = ('cost_increased', 'seeded')
         res.oblige(prob is None)
         if ex.n_paths <= 2:
-            res.sample({'C': C, 'counts(2,4,8 bit)': counts, 'result': {k: (v if not isinstance(v, dict) else {a: (b if not isinstance(b, list) else [b.count(x) for x in (2, 4, 8)]) for a, b in v.items()}) for k, v in info.items()}})
+            res.sample({'C': C, f'counts({",".join(str(b) for b in w)} bit)': counts, 'result': {k: (v if not isinstance(v, dict) else {a: (b if not isinstance(b, list) else [b.count(x) for x in w]) for a, b in v.items()}) for k, v in info.items()}})
         if prob is None:
             res.validated += 1
             continue
-        key = ('' if info.get('reassign_as_recorded', True) else 'unrecorded|') + f'fn:optimize_prec_assignment|obs:{prob[0]}|C={C}' + ('|selftest' if selftest else '')
+        key = ('' if info.get('reassign_as_recorded', True) else 'unrecorded|') + f'fn:optimize_prec_assignment|obs:{prob[0]}|C={C}' + (f'|w={"-".join(str(b) for b in w)}' if n0 is not None else '') + f'|counts={"-".join(str(c_) for c_ in counts)}' + ('|selftest' if selftest else '')
         if any(v['key'] == key for v in res.violations):
             continue
         rec = {'what_kind': 'optimize', 'w': w, 'C': C, 'wseed': wseed, 'alphas': alphas, 'observable': prob[0], 'key': key, 'what': f'optimize_prec_assignment with channel counts {counts}: {prob[1]}'[:400]}
